@@ -78,7 +78,7 @@ def table_rows(ex, tname):
     payload = SBytes.fresh(ex, "payload")
     first = ex.fresh_int("first") if kind == "modbus" else 0
     ex.inputs = {"payload": payload, "first": first, "row": i, "table": tname, "id": s.id_}
-    ex.unit = f"rows:{tname}/{s.id_}"
+    ex.unit = f"rows:{tname}/{s.id_}[{cls}]"
     resp = make_response(ex, payload, kind, first)
     spec = cs.CLASS_SPECS.get(cls)
     p = spec_position(s, kind, first)
@@ -152,7 +152,7 @@ def single_read_rows(ex, tname):
     s = rows[i]
     kind = cs.table_kind(tname)
     cls = type(s).__name__
-    ex.unit = f"single:{tname}/{s.id_}"
+    ex.unit = f"single:{tname}/{s.id_}[{cls}]"
     payload = SBytes.fresh(ex, "payload")
     first = ex.fresh_int("first") if kind == "modbus" else 0
     ex.inputs = {"payload": payload, "first": first, "row": i, "table": tname, "id": s.id_}
